@@ -200,15 +200,6 @@ def _externals(reg):
     uid_of = z3.Function('uid_of', S.V, S.V, S.V, S.V)
     reg.spec('uid_of', lambda t, c, r: uid_of(to_v(t), to_v(c), to_v(r)), None, 'the uid string of a handled cell')
 
-    def exec_function_in(ex, st, args, kwargs, node):
-        inst, uid = args
-        a = z3.Select(st.field('_arguments'), V.oid(inst))
-        uid = ex.need_term(uid)
-        return ex.cases(st, [(evr(a, uid), lambda s: [Flow('exc', s, 'Exception')]),
-                             (z3.Not(evr(a, uid)), lambda s: [(s, EVf(a, uid))])])
-    reg.external('method:exec_function_in', exec_function_in,
-                 'instance.exec_function_in(uid) is EV(argument map, uid) or raises what the generated method raises')
-
 
 def uid_str_z(t, c, r):
     from pv.symspec import to_int
